@@ -110,13 +110,15 @@ def check_C14(res):
     prof = {"weights": dict(MODE=16, JOIN=14, WHO=6, WHOIS=5, OPER=4, PRIVMSG=6, KICK=1, TOPIC=1, MISC=0.3, BAD=0.5),
             "p_users": 0.6, "p_operators": 0.9}
     ntr = 60 if res.tier == "quick" else 600
-    l2 = l2_campaign(res, "C14", ntr, 40, prof, project=None)
+    l2 = l2_campaign(res, "C14", ntr, 40, prof, project=None, traces=c14_caller_traces(res), oracle=mask_callers_oracle)
     res.coverage.update({
         "evaluations": len(pairs) + len(masks) + l2["steps"],
         "distinct_nontrivial": len(set(pairs)) + len(set(masks)),
         "rule": "wildcard pairs: exhaustive over alphabet {a,b,*,?,é} (patterns up to length %d x literal texts up to length %d = %d pairs) "
                 "plus seeded random long pairs (multi-byte, stacked wildcards, literal runs longer than the text); distinct = distinct (pattern,text) "
-                "and distinct masks; each is compared impl vs model AND impl vs extracted glob specification; callers exercised by %d server traces" % (
+                "and distinct masks; each is compared impl vs model AND impl vs extracted glob specification; callers exercised by %d server traces plus a fixed "
+                "population probed with 34 WHO / WHOIS patterns ('?'-only, '*'-only, mixed, comma lists, source and real-name patterns), with an oracle on the implementation: the users "
+                "answered are exactly those the glob semantics selects among the users visible to the asker, and bans / exceptions decide JOIN by the same semantics" % (
                     4 if res.tier == "quick" else 5, 4 if res.tier == "quick" else 5, exh, ntr),
         "exhaustive": False, "exhaustive_part": exh,
         "traces_validated_against_impl": l2["traces"],
@@ -126,6 +128,73 @@ def check_C14(res):
         "l2": l2["summary"]})
     res.assumptions = ["UTF-8 <-> code point conversion in the two drivers is trusted",
                        "callers (bans, exceptions, invite exceptions, OPER and user masks, WHO, WHOIS) are tied by server traces, see l2"]
+
+
+def mask_callers_oracle(t, steps):
+    """C14 at the call sites, on the implementation's own state: a WHO / WHOIS pattern containing '*' or '?' selects
+    exactly the users the glob semantics selects (a pattern of '?' alone is a pattern, not a literal nick), and a ban /
+    exception decides JOIN exactly as the glob semantics says (join_oracle restates that rule)"""
+    fails = []
+    cm = ConnMap(t.cfg.name)
+    prev = None
+    for s in sorted(steps, key=lambda s: s["k"]):
+        ev = t.events[s["k"]]
+        if ev[0] == "L" and isinstance(ev[2], str) and prev is not None and not s.get("panics"):
+            actor = cm.nick.get(ev[1])
+            mine = (s.get("out") or {}).get(str(ev[1]), [])
+            if actor in prev["users"] and not (mine and numeric_of(mine[0]) == "ERROR"):
+                me = prev["users"][actor]
+
+                def visible(n):
+                    u = prev["users"][n]
+                    return "i" not in u["modes"] or bool(set(u["channels"]) & set(me["channels"]))
+                m = re.match(r"^WHOIS ([^ :]+)$", ev[2])
+                if m and all(x for x in m.group(1).split(",")):
+                    masks = m.group(1).split(",")
+                    exp = set()
+                    for n in prev["users"]:
+                        for mk in masks:
+                            if (("*" in mk or "?" in mk) and py_glob(mk, n)) or mk == n:
+                                if visible(n):
+                                    exp.add(n)
+                    got = set(l.split(" ")[3] for l in mine if numeric_of(l) == "311")
+                    if got != exp:
+                        fails.append(("WHOIS %s asked by %s answers for %r, glob semantics over the users visible to the asker selects %r" % (
+                            m.group(1), actor, sorted(got), sorted(exp)), {"step": s["k"]}))
+                m = re.match(r"^WHO ([^ :]+)$", ev[2])
+                if m and ("*" in m.group(1) or "?" in m.group(1)):
+                    mk = m.group(1)
+                    exp = set(n for n, u in prev["users"].items()
+                              if visible(n) and (py_glob(mk, n) or py_glob(mk, u["source"]) or py_glob(mk, u["realname"])))
+                    got = set(l.split(" ")[7] for l in mine if numeric_of(l) == "352")
+                    if got != exp:
+                        fails.append(("WHO %s asked by %s lists %r, glob semantics over nick / source / real name of the visible users selects %r" % (
+                            mk, actor, sorted(got), sorted(exp)), {"step": s["k"]}))
+        cm.update(s)
+        prev = s.get("dump")
+    return fails + join_oracle(t, steps)
+
+
+def c14_caller_traces(res):
+    """patterns of every shape through WHO and WHOIS over a fixed population (some invisible, one sharing a channel)"""
+    cfg = Config()
+    t = Trace("c14-callers", cfg)
+    nicks = ["harry", "harvy", "barry", "ha", "h", "harry_", "x?y"]
+    for c, n in enumerate(nicks):
+        t.register(c, n)
+    t.line(1, "MODE harvy +i")
+    t.line(2, "MODE barry +i")
+    t.line(2, "JOIN #a")
+    t.line(0, "JOIN #a")
+    for mk in ["h?rry", "?arry", "harr?", "ha??y", "?????", "????", "harry?", "h*rry", "*arry", "h?*y", "h?ry", "harry", "?", "??", "*", "h*", "*y",
+               "*r*y", "?a*", "x?y", "x*y", "x\\?y", "h??", "ha?", "?a", "*?", "?*?", "h?rry,b?rry", "harry,h?", "nobody,?", "*!*@*", "h*!*@127.*", "*Real*", "Real h?rry"]:
+        if " " not in mk:
+            t.line(0, "WHOIS " + mk)
+            t.line(3, "WHOIS " + mk)
+        if "," not in mk:
+            t.line(0, "WHO " + mk if " " not in mk else "WHO :" + mk)
+            t.line(3, "WHO " + mk if " " not in mk else "WHO :" + mk)
+    return [t]
 
 
 # ====================================================================== generic L2 campaign
@@ -663,6 +732,19 @@ def msg_oracle(t, steps):
                             fails.append(("NOTICE was answered with %r" % mine, {"step": s["k"]}))
                         if verb == "PRIVMSG" and sorted(mine) != sorted(replies):
                             fails.append(("%s by %s: sender got %r, expected %r" % (ev[2], actor, sorted(mine), sorted(replies)), {"step": s["k"]}))
+        # the constraints a sender is judged by (flags, key, limit, ban / exception / invite-exception lists) of a channel
+        # that outlives the step change only in a step that announces a MODE for that channel: a refused or unrelated
+        # command that silently alters them lifts or imposes a speaking restriction nobody was told about (seeded C10-c)
+        after = s.get("dump")
+        if prev is not None and after is not None and not s.get("panics"):
+            for chn, cha in after["channels"].items():
+                chp = prev["channels"].get(chn)
+                if chp is None:
+                    continue
+                changed = [f for f in ("flags", "key", "limit", "ban", "exception", "invex") if chp.get(f) != cha.get(f)]
+                if changed and not any(re.match(r"^:\S+ MODE %s " % re.escape(chn), l) for ls in (s.get("out") or {}).values() for l in ls):
+                    fails.append(("%r changed %s of %s (%r -> %r) without any announced MODE: the restrictions in force are no longer the ones set" % (
+                        ev[2] if ev[0] == "L" else ev, changed, chn, {f: chp.get(f) for f in changed}, {f: cha.get(f) for f in changed}), {"step": s["k"]}))
         cm.update(s)
         prev = s.get("dump")
     return fails
@@ -679,22 +761,27 @@ def msg_sweep(res):
     traces = []
     rng = random.Random(res.seed + 11)
     prefixes = ["".join(p) for k in range(0, 6) for p in itertools.combinations("~&@%+", k)]
-    k = 0
-    for fl in ["", "n", "s", "m", "nm", "ns"]:
+    for fi, fl in enumerate(["", "n", "s", "m", "nm", "ns"]):
         for banned in (False, True):
-            if res.tier == "quick" and (k % 2 == 1):
-                k += 1
+            # quick tier: half of the 12 settings, alternating so that banned and unbanned channels both occur
+            if res.tier == "quick" and ((fi + int(banned) + res.seed) % 2 == 1) and fl != "":
                 continue
-            k += 1
             cfg = Config(channels=[dict(name="#r", flags=fl, founders=["alice"], protecteds=["alice", "bob"], operators=["bob", "carol"],
                                         half_operators=["carol", "dave"], voices=["dave", "alice"],
-                                        ban=(["éva!*@*", "x!*@*", "y*!*@*"] if banned else None), exception=(["x!*@127.*"] if banned else None))])
+                                        ban=(["éva!*@*", "x!*@*", "y*!*@*"] if banned else None), exception=(["nobody!*@*", "x!*@127.*"] if banned else None))])
             t = Trace("msg-%s-%d" % (fl or "none", banned), cfg)
-            for c, n in enumerate(["alice", "bob", "carol", "dave", "éva", "x", "yan"]):
+            for c, n in enumerate(["alice", "bob", "carol", "dave", "éva", "x", "yan", "frank"]):
                 t.register(c, n)
                 if n not in ("x", "yan"):
                     t.line(c, "JOIN #r")
-            for sender in (0, 3, 4, 5, 6):
+            if banned:
+                t.line(0, "MODE #r +b frank!*@*")      # a member banned after joining stays on the channel and is silenced
+            # refused edits of the mask lists (plain member, outsider, unregistered nick) leave the lists as they are
+            for l in (["MODE #r +b q!*@*", "MODE #r -b éva!*@*", "MODE #r +e éva!*@*", "MODE #r -e x!*@127.*", "MODE #r b"] if banned else ["MODE #r +b alice!*@*"]):
+                t.line(4, l)
+                t.line(7, l)
+            t.line(6, "MODE #r -b x!*@*")
+            for sender in (0, 3, 4, 5, 6, 7):
                 for pf in prefixes:
                     t.line(sender, "PRIVMSG %s#r :to %s" % (pf, pf or "all"))
                 t.line(sender, "NOTICE @%#r,#r,alice,@%#r :dup")
@@ -893,6 +980,50 @@ def c07_sweep(res):
                 t.line(1, "JOIN #c" + {"nokey": "", "right": " k1", "wrong": " k1", "missing": " k1"}[keymode])
                 t.meta = {"cell": [keymode, banned, excepted, ionly, invited, invex, full, quota_at]}
                 traces.append(t)
+    # mask LISTS: several masks per list with the joiner matching none / the first / the last / one in the middle,
+    # and lists that were populated and emptied again (a list is "any mask matches"; an emptied list matches nobody)
+    for which in range(8):
+        cfg = Config(channels=[dict(name="#c", operators=["alice"], topic="T")])
+        t = Trace("c07-lists-%d" % which, cfg)
+        t.register(0, "alice")
+        t.register(2, "joe")
+        t.register(3, "jim")
+        t.line(0, "JOIN #c")
+        bans = [["joe!*@*", "zed!*@*"], ["zed!*@*", "j*!*@*"], ["a!*@*", "b!*@*", "joe!*@*"], ["zed!*@*", "zz!*@*"]][which % 4]
+        exc = [["*!*@10.*", "joe!*@127.*"], ["jim!*@*", "nobody!*@*"], ["joe!*@*", "jim!*@*", "*!*@10.*"], ["q!*@*", "r!*@*"]][(which // 2) % 4]
+        for b in bans:
+            t.line(0, "MODE #c +b " + b)
+        for e in exc:
+            t.line(0, "MODE #c +e " + e)
+        t.line(2, "JOIN #c")
+        t.line(3, "JOIN #c")
+        t.line(2, "PART #c")
+        t.line(3, "PART #c")
+        # empty the exception list again: the bans alone decide
+        for e in exc:
+            t.line(0, "MODE #c -e " + e)
+        t.line(2, "JOIN #c")
+        t.line(3, "JOIN #c")
+        t.line(2, "PART #c")
+        t.line(3, "PART #c")
+        # invite-only with a two-mask invite-exception list, then emptied
+        t.line(0, "MODE #c +i")
+        inv = [["zed!*@*", "joe!*@*"], ["jim!*@*", "zed!*@*"]][which % 2]
+        for m in inv:
+            t.line(0, "MODE #c +I " + m)
+        for b in bans:
+            t.line(0, "MODE #c -b " + b)
+        t.line(2, "JOIN #c")
+        t.line(3, "JOIN #c")
+        t.line(2, "PART #c")
+        t.line(3, "PART #c")
+        for m in inv:
+            t.line(0, "MODE #c -I " + m)
+        t.line(2, "JOIN #c")
+        t.line(3, "JOIN #c")
+        t.line(0, "NAMES #c")
+        t.meta = {"cell": ["lists", which]}
+        traces.append(t)
     return traces
 
 
@@ -975,6 +1106,36 @@ def c16_traces(res):
                 t.line(2, "NAMES " + ch)
                 t.meta = {"pre": pre, "founder_leaves_first": swap, "exits": [e1, e2]}
                 traces.append(t)
+    # "give the configured ranks to the listed nicknames whenever these join": every subset of the five rank lists for one
+    # nick (so: nicks listed in several lists), joining, leaving and joining again, next to a nick listed nowhere
+    for k2, sub in enumerate(RANK_SUBSETS):
+        if res.tier == "quick" and k2 % 2 != res.seed % 2 and len(sub) < 2:
+            continue
+        ch = dict(name="#cfg", topic="Configured", flags="t")
+        for l in sub:
+            ch[RANKLIST[l]] = ["alice"] + (["bob"] if l in "hv" else [])
+        cfg = Config(channels=[ch])
+        t = Trace("c16-ranks-%s" % (sub or "none"), cfg)
+        t.register(0, "alice")
+        t.register(1, "bob")
+        t.register(2, "carol")
+        t.line(2, "JOIN #cfg")
+        t.line(0, "JOIN #cfg")
+        t.line(1, "JOIN #cfg")
+        t.line(2, "NAMES #cfg")
+        t.line(0, "PART #cfg")
+        t.line(0, "JOIN #cfg")
+        t.line(0, "NICK alice2")
+        t.line(0, "PART #cfg")
+        t.line(0, "JOIN #cfg")
+        t.line(0, "NICK alice")
+        t.line(1, "PART #cfg")
+        t.line(2, "PART #cfg")
+        t.line(0, "PART #cfg")
+        t.line(0, "JOIN #cfg")
+        t.line(2, "NAMES #cfg")
+        t.meta = {"pre": True, "ranks": sub}
+        traces.append(t)
     return traces
 
 
@@ -995,6 +1156,18 @@ def c16_oracle(t, steps):
         for name in pre_names:
             if name not in d["channels"]:
                 fails.append(("configured channel %s ceased to exist at step %d" % (name, s["k"]), {"step": s["k"]}))
+        # a nick that has just become a member of a configured channel holds exactly the ranks the configuration lists for it
+        if prev is not None:
+            for c in t.cfg.channels:
+                chp, cha = prev["channels"].get(c["name"]), d["channels"].get(c["name"])
+                if chp is None or cha is None:
+                    continue
+                for n in set(cha["users"]) - set(chp["users"]):
+                    if n in prev["users"]:          # a join, not a rename of a member
+                        want = "".join(l for l in "qaohv" if n in (c.get(RANKLIST[l]) or []))
+                        got = "".join(l for l in "qaohv" if l in cha["users"][n])
+                        if got != want:
+                            fails.append(("%s joined the configured channel %s and holds ranks %r, the configuration lists it for %r" % (n, c["name"], got, want), {"step": s["k"]}))
         prev = d
     return fails
 
@@ -1011,7 +1184,8 @@ def check_C16(res):
         "rule": "life-cycle sweep: {ordinary, preconfigured with topic/flags/key/limit/ban/rank lists} x exit of the first member x exit of the last member over {PART, self-KICK, QUIT, "
                 "socket close, KILL, KICK by the other} = 72 create-use-empty-recreate histories, each followed by LIST/MODE/TOPIC/NAMES probes and a re-JOIN; plus %d seeded random histories "
                 "weighted to PART/KICK/QUIT/close; oracle on the implementation: no memberless ordinary channel ever exists, configured channels never vanish, a JOIN to an absent name yields the "
-                "fresh founder+operator channel; distinct = sweep histories" % n,
+                "fresh founder+operator channel, and a nick joining a configured channel holds exactly the ranks its configuration lists for it (all 32 subsets of the five rank lists, "
+                "joined, left, renamed and re-joined); distinct = sweep histories" % n,
         "traces_validated_against_impl": r["traces"],
         "samples": [sweep[7].describe()["events"][10:]],
         "l2": r["summary"]})
@@ -2295,6 +2469,26 @@ def c11_sweep(res):
                 t.line(1, "PING x")
                 t.meta = {"default": dm, "mask": mask, "nick": nickcase}
                 traces.append(t)
+    # "no user can change another user's modes": nicks that differ only in case, in padding or by one character are
+    # different users; every MODE form on the twin's nick is refused and the twin keeps +o +w +i
+    for twin in ("Alice", "ALICE", "alice_", "alic"):
+        cfg = Config(operators=[dict(name="alice", password="topsecret")])
+        t = Trace("c11-twin-%s" % twin, cfg)
+        t.register(0, "alice")
+        t.register(2, twin)
+        t.register(3, "carol")
+        t.line(0, "OPER alice topsecret")
+        t.line(0, "MODE alice +wi")
+        for l in ["MODE alice", "MODE alice -o", "MODE alice -ow", "MODE alice -i", "MODE alice +O", "MODE alice -w+i", "MODE %s +w" % twin, "OPER alice wrongpw",
+                  "MODE alice -O", "MODE alice +o", "KILL alice :twin", "WALLOPS :from the twin"]:
+            t.line(2, l)
+            t.line(0, "MODE alice")
+        t.line(0, "WALLOPS :still operator")
+        t.line(0, "STATS u")
+        t.line(0, "MODE %s -w" % twin)
+        t.line(0, "LUSERS")
+        t.meta = {"default": "", "mask": None, "nick": "twin " + twin}
+        traces.append(t)
     return traces
 
 
@@ -3576,6 +3770,42 @@ def check_C20(res):
                 sv.stop()
                 if verdict != {pw: True, pw + "x": False, None: False}:
                     rr.violation("a server configured with the hash printed by -g for %r accepts %r" % (pw, verdict), {"kind": "binary"}, found=True)
+            # "every password string": blanks at either end, a colon, a single character - as operator passwords of one server
+            odd = [" open sesame ", "trailing ", " leading", "a:b c", "x", "\tTab"]
+            hashes = {}
+            for q in odd:
+                g = subprocess.run([SERVER_BIN, "-g", "-P", q], capture_output=True, text=True)
+                m = re.search(r"Password Hash: (\S+)", g.stdout + g.stderr)
+                if m:
+                    hashes[q] = m.group(1)
+                else:
+                    rr.violation("-g -P %r does not print a password hash" % q, {"kind": "binary", "output": (g.stdout + g.stderr)[-500:]}, found=True)
+            if len(hashes) == len(odd):
+                sv = Server(dict(base, max_joins=None, operators=[dict(name="op%d" % k, password=hashes[q]) for k, q in enumerate(odd)]), tag="c20-g")
+                if not sv.listening:
+                    rc, out = sv.stop()
+                    rr.violation("the server does not start with operator hashes printed by -g: %s" % out[-300:], {"kind": "binary"}, found=True)
+                else:
+                    c = Client(sv.port)
+                    c.send("NICK goper")
+                    c.send("USER u 8 * :U")
+                    c.read_until(lambda x: " 376 " in x or " 422 " in x, tmo=8)
+                    wrong = []
+                    for k, q in enumerate(odd):
+                        for tryp in [q + "x", q.strip(), q.strip() + " ", q]:
+                            c.send("OPER op%d :%s" % (k, tryp))
+                            ls = c.read_until(lambda x: " 381 " in x or " 464 " in x or " 491 " in x or x.startswith("ERROR"), tmo=8)
+                            ok = any(" 381 " in x for x in ls)
+                            if ok != (tryp == q):
+                                wrong.append((q, tryp, ok))
+                            if ok:
+                                c.send("MODE goper -o")
+                                c.read_until(lambda x: " MODE goper " in x, tmo=4)
+                    c.close()
+                    sv.stop()
+                    if wrong:
+                        rr.violation("hashes printed by -g do not accept exactly their own password: (generated from, tried, accepted) = %r" % wrong[:4],
+                                      {"kind": "binary", "passwords": odd, "wrong": wrong}, found=True)
             # TLS changes the transport only
             tls_d = dict(base, max_joins=None, tls=dict(cert_file="/repo/test_data/cert.crt", cert_key_file="/repo/test_data/cert_key.crt"))
             views = {}
